@@ -104,9 +104,10 @@ def do_replay(prop, path):
         rec = shrink.run_plan(mod, doc["plan"])
     want = doc["violation"]
     got = [v for v in rec["violations"] if v["prop"] == prop and (v["oracle"], v["cls"]) == (want["oracle"], want["cls"])]
-    if rec.get("text"):
+    if rec.get("text") and engine == "E2":
         say("--- program ---")
         say(rec["text"])
+    say(mod.describe(rec["plan"]))
     if got:
         say("reproduced: %s" % json.dumps(got[0]))
         kf = findings.match(prop, got[0], rec["plan"], rec)
@@ -229,7 +230,7 @@ def check(prop, tier, runs=None, workers=None, wall=None):
             else:
                 det_fail.append(("violation-did-not-replay", r["seed"]))
             continue
-        budget = 120 if tier == "quick" else 400
+        budget = 250 if tier == "quick" else 600
         small, used = shrink.shrink(mod, rec["plan"], shrink.sig_of(v), budget=budget)
         rec2 = shrink.run_plan(mod, small)
         v2 = [x for x in rec2["violations"] if shrink.sig_of(x) == shrink.sig_of(v)]
@@ -243,7 +244,9 @@ def check(prop, tier, runs=None, workers=None, wall=None):
         else:
             reported.append({"signature": list(sig), "occurrences": len(items), "replay": path, "detail": v2[0].get("detail", "")})
             say("--- minimised failing case (%d occurrences, %s) ---" % (len(items), "/".join(map(str, sig))))
-            say(rec2.get("text") or "")
+            if engine == "E2":
+                say(rec2.get("text") or "")
+            say(mod.describe(rec2["plan"]))
             say("detail: %s" % v2[0].get("detail", ""))
             say("VIOLATION property=%s replay=%s" % (prop, path))
             exit_code = 1
